@@ -276,7 +276,10 @@ Section ViewFaithful.
     view q lv (TUnion n ms r) (SStruct sn ss) (GStruct gs) =
     do m <- union_member ss gs O;
     match m with
-    | None => match lv, r with LRepr, URKinded => Err PReflect | _, _ => Err XUnion end
+    | None => match lv, r with
+              | LRepr, URKinded | LRepr, URStringprefix => Err PReflect
+              | _, _ => Err XUnion
+              end
     | Some (i, ms1, mv) =>
         with_nth
           (fun m : bytes * sty =>
@@ -284,6 +287,7 @@ Section ViewFaithful.
              match lv, r with
              | LRepr, URKinded => Ok d
              | LRepr, URKeyed => Ok (DMap [(fst m, d)])
+             | LRepr, URStringprefix => match d with DString x => Ok (DString (fst m ++ x)) | _ => Err XWrongKind end
              | LType, _ => Ok (DMap [(sty_name (snd m), d)])
              end)
           (Err PReflect) ms i
@@ -296,6 +300,7 @@ Section ViewFaithful.
               (fun m d => match lv, r with
                           | LRepr, URKinded => d
                           | LRepr, URKeyed => DMap [(fst m, d)]
+                          | LRepr, URStringprefix => match d with DString x => DString (fst m ++ x) | _ => DNull end
                           | LType, _ => DMap [(sty_name (snd m), d)]
                           end) ms gs.
   Proof. reflexivity. Qed.
@@ -353,7 +358,8 @@ Section ViewFaithful.
       destruct lv; destruct r; reflexivity.
     - (* union *)
       destruct s as [| | | | | | | | |sn ss|]; simpl in Hb; try discriminate.
-      apply andb_prop in Hb. destruct Hb as [Hb _].
+      apply andb_prop in Hb. destruct Hb as [Hb Hrw].
+      assert (Hr : r <> URStringprefix) by (intros ->; discriminate).
       apply andb3 in Hb. destruct Hb as [Hb [_ _]].
       destruct g as [| | | | | | | | | |gs|]; simpl in Hg; try discriminate.
       rewrite view_union_unfold, denote_union_unfold.
@@ -361,15 +367,16 @@ Section ViewFaithful.
                       match lv, r with
                       | LRepr, URKinded => d
                       | LRepr, URKeyed => DMap [(fst m, d)]
+                      | LRepr, URStringprefix => match d with DString x => DString (fst m ++ x) | _ => DNull end
                       | LType, _ => DMap [(sty_name (snd m), d)]
                       end).
-      set (e := match lv, r with LRepr, URKinded => PReflect | _, _ => XUnion end).
+      set (e := match lv, r with LRepr, URKinded | LRepr, URStringprefix => PReflect | _, _ => XUnion end).
       rewrite <- (union_view wrapm e ms [] ss gs false H Hb Hg eq_refl).
       cbn [length app].
       destruct (union_member ss gs 0) as [[[[i ms1] mv]|]|]; cbn [bind]; try reflexivity.
       + apply with_nth_ext. intros m.
         destruct (view q lv (snd m) ms1 mv); cbn [bind]; [|reflexivity].
-        unfold wrapm; destruct lv; destruct r; reflexivity.
+        unfold wrapm; destruct lv; destruct r; try reflexivity; congruence.
       + unfold e; destruct lv; destruct r; reflexivity.
     - (* enum *)
       destruct s; simpl in Hb; try discriminate.
